@@ -165,6 +165,7 @@ fn sched() -> &'static Sched {
 }
 
 pub fn sched_reset(n: usize) {
+    abort_clear();
     let s = sched();
     let mut st = s.m.lock().unwrap_or_else(|e| e.into_inner());
     st.n = n;
@@ -240,6 +241,18 @@ pub fn grant(t: usize) {
     s.cv.notify_all();
 }
 
+/// Controller side: the step budget is exhausted.  Every thread runs unscheduled from now on and
+/// panics ("step budget exhausted") at its next atomic access, which unwinds the call in flight
+/// (the harness catches the panic per call); threads can therefore always be joined.
+pub fn abort_all() {
+    ABORT.store(true, std::sync::atomic::Ordering::SeqCst);
+    release_all();
+}
+pub fn abort_clear() {
+    ABORT.store(false, std::sync::atomic::Ordering::SeqCst);
+}
+static ABORT: std::sync::atomic::AtomicBool = std::sync::atomic::AtomicBool::new(false);
+
 /// Controller side: abandon the execution; every thread runs to its end unscheduled.
 pub fn release_all() {
     let s = sched();
@@ -258,7 +271,13 @@ fn before(kind: u8, addr: usize, size: usize) {
         return;
     }
     if m == SCHED {
+        if ABORT.load(std::sync::atomic::Ordering::SeqCst) {
+            panic!("step budget exhausted");
+        }
         park(kind);
+        if ABORT.load(std::sync::atomic::Ordering::SeqCst) {
+            panic!("step budget exhausted");
+        }
     }
     if kind != K_LOAD {
         // crash enumeration: run the probe before the write happens
